@@ -43,6 +43,7 @@
 (*                  dictionary instead of a copy,                          *)
 (*        "prefix"  a block is matched when its name is a prefix of the    *)
 (*                  species name (H2_kwargs reaching H2O),                 *)
+(*        "suffix"  ... or a suffix of it (O_kwargs reaching H2O),         *)
 (*        "actswap" _get_states ignores rev when act is set,               *)
 (*        "actfallback" act = True on a reaction WITHOUT a transition      *)
 (*                  state silently evaluates the plain reaction change     *)
@@ -55,7 +56,7 @@ CONSTANTS Rxns,       \* reactions [r |-> side, p |-> side, t |-> side]; side = 
           KwParts,    \* caller dictionaries as [glob |-> f, blocks |-> g] (see Kw)
           ProbeNames, \* names whose routing is examined in addition to the reaction's species
           ProbeBlocks,\* block contents used by RouteIsolation
-          Variant,    \* "asbuilt" | "alias" | "prefix" | "actswap" | "actfallback"
+          Variant,    \* "asbuilt" | "alias" | "prefix" | "suffix" | "actswap" | "actfallback"
           MaxCalls
 
 VARIABLES rxn, callerKw, last, ncalls, phase
@@ -85,7 +86,10 @@ ReqRoute(kw, name) ==
        Glob(g) == GlobKey(g) \in DOMAIN kw
    IN [g \in {x \in GIds : Own(x) \/ Glob(x)} |-> IF Own(g) THEN kw[own][g] ELSE kw[GlobKey(g)]]
 
-Matches(key, name) == IF Variant = "prefix" THEN IsPrefix(key.id, name) ELSE key.id = name
+IsSuffix(a, b) == Len(a) <= Len(b) /\ SubSeq(b, Len(b) - Len(a) + 1, Len(b)) = a
+Matches(key, name) == CASE Variant = "prefix" -> IsPrefix(key.id, name)
+                        [] Variant = "suffix" -> IsSuffix(key.id, name)
+                        [] OTHER -> key.id = name
 \* _get_specie_kwargs: copy; every key containing 'kwargs' is popped from the copy; the one equal to
 \* '<name>_kwargs' is remembered and merged over the rest
 ImplRoute(kw, name) ==
